@@ -438,8 +438,11 @@ func newWorld(tw *trace.Writer, cnt *counters, id string, init map[string]any, s
 
 	// the pre-existing XR p: bound to another claim, unbound, or bound to this claim by an earlier (client-side) controller version
 	switch pre {
-	case "other":
+	case "other", "otherdel":
 		x := newXR(pName, otherClaim)
+		if pre == "otherdel" {
+			x.SetFinalizers([]string{xrFin})
+		}
 		// Half of the scenarios (by a hash of the scenario id): the other claim has the SAME name in a DIFFERENT namespace - still a
 		// different claim (added after the seeded change C06-m2, a guard that forgot the namespace, was missed).
 		if h := fnv.New32a(); func() bool { _, _ = h.Write([]byte(strings.SplitN(id, "/", 2)[0])); return h.Sum32()%2 == 0 }() {
@@ -450,6 +453,10 @@ func newWorld(tw *trace.Writer, cnt *counters, id string, init map[string]any, s
 			must(envc.Patch(ctx, x, client.Apply, client.ForceOwnership, client.FieldOwner(claim.FieldOwnerXR)))
 		} else {
 			must(envc.Create(ctx, x))
+		}
+		if pre == "otherdel" {
+			// the other claim was deleted: its XR has a deletionTimestamp and waits for its controller's finalizer
+			must(envc.Delete(ctx, x))
 		}
 	case "unbound":
 		// statically provisioned by a user (with something of its own, so that it has a managedFields entry like every real object)
